@@ -258,6 +258,12 @@ func (ex *Exec) applyContract(s *State, fr *Frame, c *ssa.Call, f *ssa.Function,
 		for _, h := range hv {
 			base[h] = true
 		}
+		// arrays the caller has not touched yet must exist before they can be havocked
+		for _, h := range hv {
+			if !strings.HasPrefix(h, "*") && ex.heapSorts[h] == "" {
+				ex.ensureHeapArrays(s, h)
+			}
+		}
 		var more []string
 		for h := range ex.heapSorts {
 			if !base[h] && coveredBy(base, h) {
@@ -1287,4 +1293,57 @@ func reaches(from, to *ssa.BasicBlock) bool {
 		return false
 	}
 	return dfs(from)
+}
+
+// ensureHeapArrays declares the heap array(s) of the field named "Struct.f.g" (a scalar field:
+// one array; a slice- or string-typed field: its obj/off/len/cap components).
+func (ex *Exec) ensureHeapArrays(s *State, name string) {
+	parts := strings.Split(name, ".")
+	if len(parts) < 2 {
+		return
+	}
+	l, ok := ex.layouts.byName[parts[0]]
+	if !ok {
+		obj := ex.prog.Pkg.Types.Scope().Lookup(parts[0])
+		if obj == nil {
+			return
+		}
+		if _, isSt := obj.Type().Underlying().(*types.Struct); !isSt {
+			return
+		}
+		l = ex.layouts.Of(obj.Type())
+	}
+	var fi *FieldInfo
+	for _, f := range parts[1:] {
+		fi = l.Fields[f]
+		if fi == nil {
+			return
+		}
+		if fi.Kind == FStruct && fi.Struct != nil {
+			l = fi.Struct
+		}
+	}
+	if fi == nil {
+		return
+	}
+	ft := ex.subst(fi.Typ)
+	isSliceLike := false
+	switch u := ft.Underlying().(type) {
+	case *types.Slice:
+		isSliceLike = true
+	case *types.Basic:
+		isSliceLike = u.Kind() == types.String
+	}
+	switch {
+	case isSliceLike:
+		s.H(ex, name+".obj", ArrSort(SRef, SRef))
+		for _, c := range []string{"off", "len", "cap"} {
+			s.H(ex, name+"."+c, ArrSort(SRef, ex.intSort(types.Typ[types.Int])))
+		}
+	case fi.Kind == FScalar:
+		func() {
+			defer func() { recover() }()
+			s.H(ex, name, ArrSort(SRef, ex.scalarSort(ft)))
+		}()
+	}
 }
